@@ -270,7 +270,7 @@ func C17(c *Ctx) {
 		// goroutine's own entry, and that entry was deleted under the mutex on that edge before reaching b
 		revalidated := func(fn *ssa.Function, b *ssa.BasicBlock, extra []flow.Fact) (bool, string) {
 			var lookup *ssa.Lookup
-			for _, f := range append(flow.FactsAt(b), extra...) {
+			for _, f := range append(flow.FactsAt(b), flow.Expand(extra)...) {
 				bo, ok := f.Cond.(*ssa.BinOp)
 				if !ok || !((bo.Op == token.EQL && f.True) || (bo.Op == token.NEQ && !f.True)) {
 					continue
